@@ -1502,15 +1502,16 @@ def run(ctx):
         "scripted parts; _check_completeness is regenerated by tools/tx_c16_nmc.py, with sqrtm (Hermitian "
         "square root of its argument) and the largest eigenvalue as oracles; the mcstep-contract theorems "
         "are about Model/C11_zvode.v (adams/bdf), tied by exact trace correspondence on search-pattern "
-        "call histories of the real integrators; dop853, lsoda and the Verner integrators are covered by "
-        "the mcstep contract test only",
+        "call histories of the real integrators; dop853 is modelled in Model/C16_dop.v (SciPy's "
+        "integrate as an oracle: exact, or short by a rounding error going forward; work[6] recorded) and "
+        "tied the same way; lsoda and the Verner integrators are covered by the mcstep contract test only",
         "_InitialConditions is modelled over exact rational weights (Model/C16_mix.v); np.ceil and the "
         "float ratio ordering are exact for the dyadic weights of the correspondence",
     ]
     props = ["Props/C16.v", "Props/C16_nm.v", "Props/C16_mix.v", "Props/C16_nmint.v",
-             "Props/C16_mcstep.v"]
+             "Props/C16_mcstep.v", "Props/C16_dop.v"]
     targets = ["Props/C16.vo", "Props/C16_nm.vo", "Props/C16_mix.vo", "Props/C16_nmint.vo",
-               "Props/C16_mcstep.vo"]
+               "Props/C16_mcstep.vo", "Props/C16_dop.vo"]
     gen_ok = True
     try:
         import tx_c16_rhs
@@ -1587,6 +1588,10 @@ def run(ctx):
     compare_mixed(ctx, 200 if ctx.quick else 2000, rng)
     compare_nmint(ctx, 60 if ctx.quick else 500, rng)
     compare_zvode_pattern(ctx, 25 if ctx.quick else 250, rng)
+    import warnings
+    with warnings.catch_warnings():
+        warnings.simplefilter("ignore")
+        compare_dop853(ctx, 40 if ctx.quick else 400, rng)
     ctx.log("martingale, mixed-state, NmMCIntegrator and zvode-pattern correspondence done")
 
     # ---- the former last-try defect (norm_steps=1) on the real solver: must not raise
@@ -1818,6 +1823,14 @@ def replay(ctx, payload):
             ctx.violation(payload["site"], payload["signature"],
                           "NmMCIntegrator/InfluenceMartingale and the Coq model disagree",
                           {"kind": "nmint", "case": c, "nmcase": m})
+    elif kind == "dop853":
+        views, zops = run_dop_impl(d["case"])
+        for z, vw in zip(zops, views):
+            if z[0] == "mc" and vw[2] and z[2] == 0 and (
+                    vw[0] or abs(vw[1] - z[1]) > 4 * np.spacing(abs(z[1]))):
+                ctx.violation(payload["site"], payload["signature"],
+                              "mcstep(%r) returned %r (raised=%r)" % (z[1], vw[1], vw[0]), d)
+                break
     elif kind == "zvode-search":
         import c11
         views, oracle, bad = c11.run_zvode_impl(dict(d["case"]))
@@ -2531,3 +2544,143 @@ def compare_zvode_pattern(ctx, n, rng):
                           "IntegratorScipyAdams/BDF and the window model disagree on a search-pattern history",
                           {"kind": "zvode-search", "case": c}, found_input=bool(bad))
     ctx.sample({"zvode_search_case": cases[-1]})
+
+
+# ===================================================================
+# IntegratorScipyDop853.mcstep: exact correspondence with Model/C16_dop.v
+# ===================================================================
+HEADER_DOP = ("From Coq Require Import List ZArith Bool.\nImport ListNotations.\n"
+              "From QV Require Import Model.C16_dop.\nOpen Scope Z_scope.\n")
+
+
+def gen_dop_case(rng):
+    ops = []
+    ops.append(["set", rng.choice([0.0, 0.0, 1.0, -0.5, 1 / 3, 2.5])])
+    for _ in range(rng.randint(1, 4)):
+        ops.append(["fwd", rng.choice([1 / 3, 0.25, 1.0, 0.385416666, 0.1, 2.0])])
+        for _ in range(rng.randint(0, 5)):
+            ops.append(["in", rng.choice([0.125, 0.25, 0.5, 0.75, 0.875, 1.0, 1 / 3])])
+        if rng.random() < 0.5:
+            ops.append(["same"])
+        if rng.random() < 0.6:
+            ops.append(["set_here"])
+    return {"ops": ops}
+
+
+def run_dop_impl(case):
+    """a real IntegratorScipyDop853 (real SciPy dop853) driven like
+    MCIntegrator drives it; records work[6] and the time scipy reports."""
+    import qutip
+    from qutip.solver.integrator.integrator import IntegratorException
+    H = qutip.Qobj(0.5 * SZ + 0.75 * SX)
+    I = qutip.SESolver(H, options={"method": "dop853"})._integrator
+    y0 = qutip.basis(2, 0).data
+    raw = {}
+    real_integrate = I._ode_solver.integrate
+
+    def integrate(t, *a, **k):
+        out = real_integrate(t, *a, **k)
+        raw["r"] = float(I._ode_solver.t)
+        return out
+    I._ode_solver.integrate = integrate
+    views, zops = [], []
+    errs = case.setdefault("_errs", [])
+    del errs[:]
+    lo = hi = None            # the last forward step (t_old, t_step]
+    for op in case["ops"]:
+        cur = float(I._ode_solver.t)
+        raised = False
+        if op[0] in ("set", "set_here"):
+            t = cur if op[0] == "set_here" else float(op[1])
+            I.set_state(t, y0)
+            lo = hi = t
+            zops.append(("set", t))
+            views.append((False, t, bool(I._is_set), float(I._ode_solver.t)))
+            continue
+        if op[0] == "mc_abs":
+            t = float(op[1])
+        elif op[0] == "fwd":
+            t = (hi if hi is not None else cur) + float(op[1])
+        elif op[0] == "in":
+            t = lo + float(op[1]) * (hi - lo) if hi is not None else cur
+        else:
+            t = cur
+        dt = float(I._ode_solver._integrator.work[6])
+        raw.pop("r", None)
+        try:
+            tout, _y = I.mcstep(t)
+            tout = float(tout)
+        except Exception as e:      # noqa  (IntegratorException, or whatever a broken mcstep raises)
+            raised = True
+            tout = float(I._ode_solver.t)
+            errs.append("%s: %s" % (type(e).__name__, str(e)[:80]))
+        target = t if (dt == 0 or not cur <= t) else min(cur + dt, t)
+        r = raw.get("r", cur)
+        near = bool(0 < target - r <= 2 * np.spacing(abs(target)))
+        if op[0] == "fwd" and not raised:
+            lo, hi = cur, tout
+        zops.append(("mc", t, dt, r, near, cur))
+        views.append((raised, tout, bool(I._is_set), float(I._ode_solver.t)))
+    return views, zops
+
+
+def compare_dop853(ctx, n, rng):
+    from fractions import Fraction
+    cases, exprs, runs, scs = [], [], [], []
+    for _ in range(n):
+        c = gen_dop_case(rng)
+        views, zops = run_dop_impl(c)
+        vals_ = []
+        for z in zops:
+            vals_ += list(z[1:4]) if z[0] == "mc" else [z[1]]
+        for v in views:
+            vals_ += [v[1], v[3]]
+        den = 1
+        for x in vals_:
+            den = max(den, Fraction(float(x)).denominator)
+        sc = (lambda d: (lambda x: int(Fraction(float(x)) * d)))(den)
+        ops = ["DSet %s" % vlib.cz(sc(z[1])) if z[0] == "set"
+               else "DMc %s %s %s %s" % (vlib.cz(sc(z[1])), vlib.cz(sc(z[2])), vlib.cz(sc(z[3])), cbool(z[4]))
+               for z in zops]
+        exprs.append("d_trace d_new %s" % clist(ops))
+        cases.append(c)
+        runs.append((views, zops))
+        scs.append(sc)
+    try:
+        vals = vlib.coq_eval_values("cases_C16_dop", HEADER_DOP, exprs, chunk=100)
+    except RuntimeError as e:
+        ctx.violation("corr:C16:dop-model-eval", "coqc", "dop853 model evaluation failed",
+                      {"log": str(e)[-2000:]}, found_input=False)
+        return
+    nz_dt = 0
+    off_contract = 0
+    for c, (views, zops), sc, v in zip(cases, runs, scs, vals):
+        model = [(x[0], x[1], x[2][0], x[2][1]) for x in vlib.parse_coq_value(v)]
+        im = [(a, sc(b), d, sc(e)) for a, b, d, e in views]
+        ctx.count_case(("dop853", json.dumps(c)), nontrivial=len(c["ops"]) >= 4)
+        ctx.cov["traces_validated_against_impl"] += 1
+        nz_dt += sum(1 for z in zops if z[0] == "mc" and z[2] != 0)
+        # scipy's contract, and the property: once set, every request is
+        # answered at exactly the requested time
+        for z, vw in zip(zops, views):
+            fwd = z[0] == "mc" and z[5] <= z[1]
+            if fwd and z[2] == 0 and z[3] != z[1] and not z[4]:
+                off_contract += 1      # scipy neither exact nor short-by-rounding (overshoot by an ulp)
+            if z[0] == "mc" and vw[2] and z[2] == 0 and (
+                    vw[0] or abs(vw[1] - z[1]) > 4 * np.spacing(abs(z[1]))):
+                errs = c.pop("_errs", [])
+                ctx.violation("integrator.mcstep:dop853",
+                              "request-raises" if vw[0] else "request-not-answered-exactly",
+                              "mcstep(%r) from t=%r returned %r (raised=%r %s) with work[6] = 0"
+                              % (z[1], z[5], vw[1], vw[0], errs[:1]),
+                              {"kind": "dop853", "case": c})
+                break
+        c.pop("_errs", None)
+        if im != model:
+            ctx.violation("corr:scipy_integrator.IntegratorScipyDop853", "model-differs",
+                          "IntegratorScipyDop853 and its model disagree on a call history",
+                          {"kind": "dop853", "case": c, "impl": [list(map(str, x)) for x in im][:6],
+                           "model": [list(map(str, x)) for x in model][:6]})
+    ctx.cov["dop853_nonzero_work6_calls"] = nz_dt
+    ctx.cov["dop853_forward_calls_outside_oracle_contract"] = off_contract
+    ctx.sample({"dop853_case": cases[-1]})
